@@ -178,7 +178,7 @@ def run_unit(u):
                 comp = {'tag': None, 'ids': [], 'classes': [], 'attrs': [], 'pseudos': [('not', [[comp]])]}
             ast = [[comp]] if rng.random() < .8 else [[{'tag': (None, rng.choice(NAMES)), 'ids': [], 'classes': [], 'attrs': [], 'pseudos': []},
                                                        rng.choice([' ', '>']), comp]]
-            text = sels.render_tokens(sels.tok_list(ast), prefer_string=rng.random() < .8)
+            text = sels.render_tokens(sels.tok_list(ast), prefer_string=rng.random() < .8) if rng.random() < .7 else cases.respelled(rng, ast, 1.0)
             st, info = cases.compare_select(sv, case, ast, text)
             res['evals'] += 1
             bump('how:' + how)
